@@ -361,6 +361,16 @@ static void enumerate(void) {
 	static const int IDS[] = {B12_P381};
 #elif FP_PRIME == 446
 	static const int IDS[] = {BN_P446, B12_P446};
+#elif FP_PRIME == 160
+	static const int IDS[] = {SECG_P160, SECG_K160};
+#elif FP_PRIME == 192
+	static const int IDS[] = {NIST_P192, SECG_K192};
+#elif FP_PRIME == 224
+	static const int IDS[] = {NIST_P224, SECG_K224};
+#elif FP_PRIME == 384
+	static const int IDS[] = {NIST_P384};
+#elif FP_PRIME == 521
+	static const int IDS[] = {NIST_P521};
 #else
 	static const int IDS[] = {0};
 #endif
